@@ -7,7 +7,7 @@ of integer variables and constraints to boolean satisfiability clauses.
 Not part of the public API - use Model from cp.py instead.
 """
 
-from itertools import combinations
+from itertools import combinations, product
 from typing import TYPE_CHECKING, Any
 
 from solvor.sat import Status as SATStatus
@@ -136,86 +136,23 @@ class SATEncoder:
         return terms, const
 
     def _encode_ne_expr(self, left: Any, right: Any, is_ne: bool) -> None:
-        """Encode (left_expr != right_expr) or (left_expr == right_expr).
+        """Encode (left_expr != right_expr) or (left_expr == right_expr) for arbitrary linear expression trees.
 
-        Handles linear expressions like (x + c1) != (y + c2).
+        Every value combination of the variables involved that violates the relation is excluded by one clause.
         """
-        from solvor.cp import IntVar
+        from solvor.cp import _eval_expr, _expr_vars
 
-        # Handle subtraction: (x - y) ?= c => x ?= y + c
-        if isinstance(left, tuple) and left[0] == "sub":
-            x, y = left[1], left[2]
-            if isinstance(x, IntVar) and isinstance(y, IntVar):
-                right_const = right if isinstance(right, int) else 0
-                if is_ne:
-                    for v1 in x.bool_vars:
-                        v2 = v1 - right_const
-                        if v2 in y.bool_vars:
-                            self._clauses.append([-x.bool_vars[v1], -y.bool_vars[v2]])
-                else:
-                    for v1 in x.bool_vars:
-                        v2 = v1 - right_const
-                        if v2 in y.bool_vars:
-                            self._clauses.append([-x.bool_vars[v1], y.bool_vars[v2]])
-                            self._clauses.append([x.bool_vars[v1], -y.bool_vars[v2]])
-                        else:
-                            self._clauses.append([-x.bool_vars[v1]])
-                return
+        variables = _expr_vars(right, _expr_vars(left))
+        domains = [sorted(var.bool_vars) for var in variables]
+        for combo in product(*domains):
+            values = {id(var): val for var, val in zip(variables, combo)}
 
-        left_terms, left_const = self._flatten_sum(left)
-        right_terms, right_const = self._flatten_sum(right)
+            def value_of(var, values=values):
+                return values[id(var)]
 
-        # Handle case: single var + const on left, constant on right
-        if len(left_terms) == 1 and len(right_terms) == 0:
-            var = left_terms[0]
-            target = right_const - left_const
-            if is_ne:
-                self._encode_ne_const(var, target)
-            else:
-                self._encode_eq_const(var, target)
-            return
-
-        # Handle case: constant on left, single var + const on right
-        if len(left_terms) == 0 and len(right_terms) == 1:
-            var = right_terms[0]
-            target = left_const - right_const
-            if is_ne:
-                self._encode_ne_const(var, target)
-            else:
-                self._encode_eq_const(var, target)
-            return
-
-        # Handle case: two vars on left, constant on right
-        if len(left_terms) == 2 and len(right_terms) == 0:
-            target = right_const - left_const
-            if is_ne:
-                v1, v2 = left_terms
-                for val1 in v1.bool_vars:
-                    val2 = target - val1
-                    if val2 in v2.bool_vars:
-                        self._clauses.append([-v1.bool_vars[val1], -v2.bool_vars[val2]])
-            else:
-                self._encode_sum_eq(left_terms, target)
-            return
-
-        # Handle simple case: single var + const on each side
-        if len(left_terms) == 1 and len(right_terms) == 1:
-            var1, var2 = left_terms[0], right_terms[0]
-            offset = right_const - left_const
-
-            if is_ne:
-                for v1 in var1.bool_vars:
-                    v2 = v1 - offset
-                    if v2 in var2.bool_vars:
-                        self._clauses.append([-var1.bool_vars[v1], -var2.bool_vars[v2]])
-            else:
-                for v1 in var1.bool_vars:
-                    v2 = v1 - offset
-                    if v2 in var2.bool_vars:
-                        self._clauses.append([-var1.bool_vars[v1], var2.bool_vars[v2]])
-                        self._clauses.append([var1.bool_vars[v1], -var2.bool_vars[v2]])
-                    else:
-                        self._clauses.append([-var1.bool_vars[v1]])
+            equal = _eval_expr(left, value_of) == _eval_expr(right, value_of)
+            if equal == is_ne:
+                self._clauses.append([-var.bool_vars[val] for var, val in zip(variables, combo)])
 
     # Sum constraints
 
